@@ -151,15 +151,17 @@ func arrayHasSuffix(suffix rel.Value, subject rel.Array) (rel.Value, error) {
 
 	subjectVals := subject.Values()
 	suffixVals := suffixArray.Values()
-	suffixOffset := suffixArray.Count() - 1
+	if len(subjectVals) < len(suffixVals) {
+		return rel.NewBool(false), nil
+	}
 
-	for _, val := range subjectVals[subject.Count()-1:] {
-		if suffixOffset > -1 && val.Equal(suffixVals[suffixOffset]) {
-			suffixOffset--
-			if suffixOffset == -1 {
-				break
+	// compare the suffix with the tail of the subject of the same length, item by item (nil is a hole)
+	for i, val := range subjectVals[len(subjectVals)-len(suffixVals):] {
+		if val == nil || suffixVals[i] == nil {
+			if val != nil || suffixVals[i] != nil {
+				return rel.NewBool(false), nil
 			}
-		} else {
+		} else if !val.Equal(suffixVals[i]) {
 			return rel.NewBool(false), nil
 		}
 	}
